@@ -120,6 +120,9 @@ func NewSim(tape *Tape, trace bool) *Sim {
 		TaskWeight: 10,
 		fp:         14695981039346656037,
 	}
+	// every run draws its crypto/rand stream from the tape (one value; an
+	// exhausted replay tape yields stream 0)
+	installDetRand(uint64(tape.Draw(1 << 30)))
 	s.active.Store(true)
 	current.Store(s)
 	installHooks()
@@ -130,6 +133,7 @@ func NewSim(tape *Tape, trace bool) *Sim {
 func (s *Sim) Close() {
 	s.active.Store(false)
 	current.CompareAndSwap(s, nil)
+	restoreRand()
 }
 
 var hooksOnce sync.Once
